@@ -560,7 +560,8 @@ Var& Var::extend(const Var& v)
 	
 	if (_type == OBJ)
 	{
-		foreach2 (String& k, Var & x, *v._o)
+		Dic<Var> src(*v._o); // v can be a property of this object that is overwritten below
+		foreach2 (String& k, Var & x, src)
 		{
 			if (x.ok())
 				(*_o)[k] = x;
